@@ -57,6 +57,19 @@ def max_gap(notes, end):
     return max((b - a for a, b in zip(pts, pts[1:])), default=0.0)
 
 
+_HANDED = {}
+
+
+def handed_timeout(T):
+    """The wait bound a worker of a master configured with timeout=T is constructed with: taken from the real
+    Arbiter.setup()/spawn_worker() (run under the simulated kernel), not assumed to be T/2."""
+    if T not in _HANDED:
+        k = sk.Kernel(script=[("tick",)], term="now", settle=0)
+        sk.run_arbiter([sk.make_cfg(workers=1, timeout=T, graceful_timeout=2)], k)
+        _HANDED[T] = k.worker_objs[0].timeout
+    return _HANDED[T]
+
+
 def measure_sync(T, pattern, multi=False):
     """pattern: list of (arrival_time, duration) of connections; returns (G, number of notifies)."""
     import gunicorn.workers.sync as S
@@ -109,7 +122,7 @@ def measure_sync(T, pattern, multi=False):
     saved = S.select
     S.select = Sel
     try:
-        wk = W(1, os.getppid(), listeners, None, T / 2.0, cfg, QuietLog())
+        wk = W(1, os.getppid(), listeners, None, handed_timeout(T), cfg, QuietLog())
         wk.tmp.close()
         wk.tmp = RecTmp(clock)
         wk.PIPE = (-1, -2)
@@ -174,7 +187,7 @@ def measure_gthread(T, at_capacity):
                     self.alive = False
                 return True
 
-        wk = W(1, os.getppid(), [], None, T / 2.0, cfg, QuietLog())
+        wk = W(1, os.getppid(), [], None, handed_timeout(T), cfg, QuietLog())
         wk.tmp.close()
         wk.tmp = RecTmp(clock)
         wk.poller = Poller()
@@ -216,7 +229,7 @@ def _measure_async(args):
         saved = M.gevent
         M.gevent = Stub()
         try:
-            wk = M.GeventWorker(1, os.getppid(), [], None, T / 2.0, cfg, QuietLog())
+            wk = M.GeventWorker(1, os.getppid(), [], None, handed_timeout(T), cfg, QuietLog())
             state["w"] = wk
             wk.tmp.close()
             wk.tmp = RecTmp(clock)
@@ -246,7 +259,7 @@ def _measure_async(args):
         saved = M.eventlet
         M.eventlet = Stub()
         try:
-            wk = M.EventletWorker(1, os.getppid(), [], None, T / 2.0, cfg, QuietLog())
+            wk = M.EventletWorker(1, os.getppid(), [], None, handed_timeout(T), cfg, QuietLog())
             state["w"] = wk
             wk.tmp.close()
             wk.tmp = RecTmp(clock)
